@@ -903,6 +903,58 @@ def check_read_until_full(ctx, rep, fs, fa):
     rep.count_floor('C11.R8', 'exits of the read loop towards deserialize', n, 1)
 
 
+def check_take_form(ctx, rep, fs, fa):
+    """the other bounded inflate: `ZlibDecoder::new(..).take(MAX_DECOMPRESSED_SIZE).read_to_end(&mut vec)`; the limit sits on the
+    decoder's *output*, the decoder is used for nothing else, and what is deserialised is the vector that was filled"""
+    dec = [(b, a, fa.place_expr(fa.blocks[b]['t']['d'], (b, 0))) for (b, f, a, t) in calls(fa) if callee_str(f).endswith('ZlibDecoder::<R>::new')]
+    takes = [(b, a, fa.place_expr(fa.blocks[b]['t']['d'], (b, 0))) for (b, f, a, t) in calls(fa) if callee_str(f).endswith('Read::take')]
+    rep.ob('C11.R2', fs, 'take-form:one-decoder-one-take', len(dec) == 1 and len(takes) == 1, 'ZlibDecoder::new calls %d, Read::take calls %d' % (len(dec), len(takes)))
+    if len(dec) != 1 or len(takes) != 1:
+        return
+    dl, tl = dec[0][2], takes[0][2]
+    ta = takes[0][1]
+    on_dec = contains(ta[0], lambda y: is_call(y, 'ZlibDecoder::<R>::new')) or (dl[0] == 'local' and contains(ta[0], lambda y: y == dl))
+    rep.ob('C11.R2', fs, 'take-form:limit-on-the-decoder-output', on_dec, 'take() is applied to %s' % shape(ta[0]))
+    lim = contains(ta[1], lambda y: isinstance(y, tuple) and y and y[0] == 'cdef' and y[1] == 'maybenot::constants::MAX_DECOMPRESSED_SIZE')
+    rep.ob('C11.R2', fs, 'take-form:limit-is-MAX_DECOMPRESSED_SIZE', lim, 'take(%s)' % shape(ta[1]))
+    readers = []
+    for (b, f, a, t) in calls(fa):
+        cs = callee_str(f)
+        if cs.endswith('ZlibDecoder::<R>::new') or cs.endswith('Read::take'):
+            continue
+        direct = lambda x, l: l[0] == 'local' and strip_sites(x) in (l, ('ref', l), ('load', l))
+        uses_dec = any(direct(x, dl) for x in a)
+        uses_take = any(direct(x, tl) for x in a)
+        if uses_dec:
+            rep.ob('C11.R2', fs, 'decoder-borrowed-by:' + cs.split('::')[-1], False, 'the decoder is used outside take(): %s' % cs)
+        if uses_take:
+            okr = cs.endswith('Read::read_to_end') or cs.endswith('Read::read')
+            rep.ob('C11.R2', fs, 'take-form:reader:' + cs.split('::')[-1], okr, 'the limited reader is used through %s' % cs)
+            if cs.endswith('Read::read_to_end'):
+                readers.append((b, a))
+    rep.ob('C11.R8', fs, 'take-form:read_to_end-on-the-limited-reader', len(readers) == 1, 'read_to_end calls on the limited reader: %d' % len(readers))
+    for (b, f, a, t) in calls(fa):
+        if callee_str(f).endswith('Options::deserialize'):
+            src = a[1]
+            buf = None
+            if readers:
+                for x in walk(readers[0][1][1]):
+                    if isinstance(x, tuple) and x and x[0] == 'local':
+                        buf = x
+            seen, work, ok = set(), [x for x in walk(src) if isinstance(x, tuple) and x and x[0] == 'local'], False
+            while work:
+                l = work.pop()
+                if l in seen:
+                    continue
+                seen.add(l)
+                if l == buf:
+                    ok = True
+                for (bb, kk, part) in fa.defs().get(l[1], []):
+                    work += [x for x in walk(fa.def_value(l[1], bb, kk)) if isinstance(x, tuple) and x and x[0] == 'local']
+            rep.ob('C11.R2', fs, 'deserialises-only-bytes-read', ok and readers and fa.cfg.dominates(readers[0][0], b), 'deserialize(%s) of the vector filled by read_to_end' % shape(src))
+            rep.ob('C11.R2', fs, 'deserialises-with-limit', contains(a[0], lambda x: is_call(x, 'with_limit')), '')
+
+
 def check_C11(ctx, rep):
     prog, an = ctx.prog, ctx.an
     rep.rule('C11.R1', 'writer/reader agreement: serialize and from_str build the same bincode options (same resolved calls, same limit constant), '
@@ -912,8 +964,11 @@ def check_C11(ctx, rep):
              'buf[..bytes_read] (or the buffer truncated to bytes_read) with the limit')
     rep.rule('C11.R3', 'every Ok of from_str, Machine::new and the v1 parser is behind Machine::validate on the returned value (= C12.R2)')
     rep.rule('C11.R4', 'derive completeness: every crate-local type reachable from Machine\'s fields has derived Serialize and Deserialize and '
-             'no serde attribute (skip/default/with/rename ...); name() is digest(serialize())')
-    rep.rule('C11.R5', 'panic inventory of from_str: the two str slices are behind len >= 3 and is_ascii, the unwrap behind the is_err return')
+             'the derived bodies cover every declared field (serialize writes each field once, under its own name, from that field; visit_seq '
+             'reads one element per field): this is how skip / rename / with would show, the helper attributes themselves are not part of the '
+             'lowered program; name() is digest(serialize())')
+    rep.rule('C11.R5', 'panic inventory of from_str: the two str slices are behind is_ascii and a length check of the string that is sliced (len >= 3 '
+             'of the parameter, or of the derived string when a derived string is sliced), the unwrap behind the is_err return')
     rep.rule('C11.R6', 'legacy v1 parser: every slice / index of the input buffers with a constant bound is covered by a dominating length '
              'check (constant propagation of the read cursor, lower bound of the guard expression); non-constant bounds are reported as '
              'undischarged-out-of-scope, not as violations')
@@ -969,51 +1024,56 @@ def check_C11(ctx, rep):
     zdec = [cs for (b, f, a, t) in calls(fa) for cs in [callee_str(f)] if 'ZlibDecoder' in cs]
     zenc = [cs for (b, f, a, t) in calls(sa_) for cs in [callee_str(f)] if 'ZlibEncoder' in cs]
     rep.ob('C11.R1', fs, 'zlib-pair', any(c.endswith('::new') for c in zdec) and any(c.endswith('::new') for c in zenc), 'decoder calls %s / encoder calls %s' % (zdec, zenc))
-    # ---- R2
-    def allowed_use(c):
-        return ('ZlibDecoder' in c) and (c.endswith('ZlibDecoder::<R>::new') or (c.endswith('Read>::read') and 'io::Read' in c))
-    for c in zdec:
-        rep.ob('C11.R2', fs, 'decoder-use:' + c.split('::')[-1], allowed_use(c), 'ZlibDecoder used through %s' % c)
-    rep.count_exact('C11.R2', 'Read::read calls on the decoder', sum(1 for c in zdec if c.endswith('Read>::read')), 1)
-    deny = ('read_to_end', 'read_to_string', 'read_exact', '::bytes', 'io::copy', '::take', 'read_vectored', 'BufReader', '::chain', 'read_buf')
-    for (b, f, a, t) in calls(fa):
-        cs = callee_str(f)
-        if any(d in cs for d in deny) and 'str' not in cs.split('::')[-2:][0]:
-            rep.ob('C11.R2', fs, 'unbounded-read:' + cs.split('::')[-1], False, 'call to %s in from_str' % cs)
-    # the decoder is not handed to any other function (e.g. by &mut) except read
-    dec_locals = set()
-    for (pe, v, site, mp) in stores(fa):
-        if is_call(v, 'ZlibDecoder::<R>::new') and pe[0] == 'local':
-            dec_locals.add(pe[1])
-    for (b, f, a, t) in calls(fa):
-        for x in a:
-            if x[0] == 'ref' and x[1][0] == 'local' and x[1][1] in dec_locals:
-                rep.ob('C11.R2', fs, 'decoder-borrowed-by:' + callee_str(f).split('::')[-1], allowed_use(callee_str(f)), '%s' % callee_str(f))
-    for (b, f, a, t) in calls(fa):
-        if callee_str(f).endswith('Read>::read') and 'ZlibDecoder' in callee_str(f):
-            buf = a[1]
-            ok = contains(buf, lambda x: is_call(x, 'from_elem') and x[2][1][0] == 'cdef' and x[2][1][1] == 'maybenot::constants::MAX_DECOMPRESSED_SIZE')
-            if not ok:
-                # buffer is a local vec: look at its definition
-                for x in walk(buf):
-                    if isinstance(x, tuple) and x and x[0] == 'local':
-                        dv = [fa.def_value(x[1], bb, kk) for (bb, kk, part) in fa.defs().get(x[1], [])]
-                        ok = ok or any(is_call(d, 'from_elem') and d[2][1][0] == 'cdef' and d[2][1][1] == 'maybenot::constants::MAX_DECOMPRESSED_SIZE' for d in dv)
-            rep.ob('C11.R2', fs, 'read-buffer-is-MAX_DECOMPRESSED_SIZE', ok, 'read into %s' % shape(buf))
-    for (b, f, a, t) in calls(fa):
-        if callee_str(f).endswith('Options::deserialize'):
-            src = a[1]
-            ok = contains(src, lambda x: isinstance(x, tuple) and x and x[0] == 'agg' and x[2] == 'RangeTo') and contains(src, lambda x: is_call(x, 'Read>::read'))
-            if not ok:
-                ok = truncated_to_read(fa, src, b)
-            rep.ob('C11.R2', fs, 'deserialises-only-bytes-read', ok, 'deserialize(%s)' % shape(src))
-            okl = contains(a[0], lambda x: is_call(x, 'with_limit'))
-            rep.ob('C11.R2', fs, 'deserialises-with-limit', okl, '')
-    # ---- R8: completeness of the bounded read (finding F8)
+    # ---- R2 / R8: two accepted forms of the bounded inflate
     rep.rule('C11.R8', 'the bounded read is repeated until the buffer is full or the stream ends: Read::read may return after any part of '
              'the payload (flate2 consumes its input in 32 KiB blocks), so the call sits in a loop and every way out of that loop towards '
-             'the deserialisation has just seen a read of 0 bytes, or the fill count reach the buffer length (error returns excepted)')
-    check_read_until_full(ctx, rep, fs, fa)
+             'the deserialisation has just seen a read of 0 bytes, or the fill count reach the buffer length (error returns excepted); '
+             'or, in the Take form, read_to_end on decoder.take(MAX_DECOMPRESSED_SIZE) reads to the end of stream or the limit by contract')
+    if any(callee_str(f).endswith('Read::take') for (b, f, a, t) in calls(fa)) and zdec:
+        check_take_form(ctx, rep, fs, fa)
+    else:
+        # ---- R2
+        def allowed_use(c):
+            return ('ZlibDecoder' in c) and (c.endswith('ZlibDecoder::<R>::new') or (c.endswith('Read>::read') and 'io::Read' in c))
+        for c in zdec:
+            rep.ob('C11.R2', fs, 'decoder-use:' + c.split('::')[-1], allowed_use(c), 'ZlibDecoder used through %s' % c)
+        rep.count_exact('C11.R2', 'Read::read calls on the decoder', sum(1 for c in zdec if c.endswith('Read>::read')), 1)
+        deny = ('read_to_end', 'read_to_string', 'read_exact', '::bytes', 'io::copy', '::take', 'read_vectored', 'BufReader', '::chain', 'read_buf')
+        for (b, f, a, t) in calls(fa):
+            cs = callee_str(f)
+            if any(d in cs for d in deny) and 'str' not in cs.split('::')[-2:][0]:
+                rep.ob('C11.R2', fs, 'unbounded-read:' + cs.split('::')[-1], False, 'call to %s in from_str' % cs)
+        # the decoder is not handed to any other function (e.g. by &mut) except read
+        dec_locals = set()
+        for (pe, v, site, mp) in stores(fa):
+            if is_call(v, 'ZlibDecoder::<R>::new') and pe[0] == 'local':
+                dec_locals.add(pe[1])
+        for (b, f, a, t) in calls(fa):
+            for x in a:
+                if x[0] == 'ref' and x[1][0] == 'local' and x[1][1] in dec_locals:
+                    rep.ob('C11.R2', fs, 'decoder-borrowed-by:' + callee_str(f).split('::')[-1], allowed_use(callee_str(f)), '%s' % callee_str(f))
+        for (b, f, a, t) in calls(fa):
+            if callee_str(f).endswith('Read>::read') and 'ZlibDecoder' in callee_str(f):
+                buf = a[1]
+                ok = contains(buf, lambda x: is_call(x, 'from_elem') and x[2][1][0] == 'cdef' and x[2][1][1] == 'maybenot::constants::MAX_DECOMPRESSED_SIZE')
+                if not ok:
+                    # buffer is a local vec: look at its definition
+                    for x in walk(buf):
+                        if isinstance(x, tuple) and x and x[0] == 'local':
+                            dv = [fa.def_value(x[1], bb, kk) for (bb, kk, part) in fa.defs().get(x[1], [])]
+                            ok = ok or any(is_call(d, 'from_elem') and d[2][1][0] == 'cdef' and d[2][1][1] == 'maybenot::constants::MAX_DECOMPRESSED_SIZE' for d in dv)
+                rep.ob('C11.R2', fs, 'read-buffer-is-MAX_DECOMPRESSED_SIZE', ok, 'read into %s' % shape(buf))
+        for (b, f, a, t) in calls(fa):
+            if callee_str(f).endswith('Options::deserialize'):
+                src = a[1]
+                ok = contains(src, lambda x: isinstance(x, tuple) and x and x[0] == 'agg' and x[2] == 'RangeTo') and contains(src, lambda x: is_call(x, 'Read>::read'))
+                if not ok:
+                    ok = truncated_to_read(fa, src, b)
+                rep.ob('C11.R2', fs, 'deserialises-only-bytes-read', ok, 'deserialize(%s)' % shape(src))
+                okl = contains(a[0], lambda x: is_call(x, 'with_limit'))
+                rep.ob('C11.R2', fs, 'deserialises-with-limit', okl, '')
+        # ---- R8: completeness of the bounded read (finding F8)
+        check_read_until_full(ctx, rep, fs, fa)
     # ---- R3
     check_validate_before_ok(ctx, rep, 'C11.R3')
     rep.rule('C11.R7', 'Machine::new stores each parameter in the same-named field; the v1 parser passes its decoded header values in that order; '
@@ -1041,13 +1101,6 @@ def check_C11(ctx, rep):
         de = [i for i in prog.impls if i['crate'] == FW and i['self_ty'].split('<')[0] == p and ('de::Deserialize' in i['trait'] or i['trait'].endswith('serde::Deserialize'))]
         rep.ob('C11.R4', p.split('::')[-1], 'derived-Serialize', len(ser) == 1 and ser[0]['derived'], 'impls: %d' % len(ser))
         rep.ob('C11.R4', p.split('::')[-1], 'derived-Deserialize', len(de) == 1 and de[0]['derived'], 'impls: %d' % len(de))
-        attrs = list(a.get('attrs', []))
-        for v in a['variants']:
-            attrs += v.get('attrs', [])
-            for fl in v['fields']:
-                attrs += fl.get('attrs', [])
-        bad = [x for x in attrs if 'serde' in x]
-        rep.ob('C11.R4', p.split('::')[-1], 'no-serde-attributes', not bad, 'serde attributes: %s' % bad[:3])
         # derive helper attributes are not part of the lowered program, so the effect of skip / rename / with is read off the derived
         # bodies: every declared field is written once under its own name, and read back once
         fields = [(v['name'], fl['name']) for v in a['variants'] for fl in v['fields']]
@@ -1147,8 +1200,18 @@ def check_C11(ctx, rep):
                     if need is None:
                         continue
                     # which buffer: the slice/vec the index applies to
-                    def same_buf(l, bufe=bufe):
+                    def same_buf(l, bufe=bufe, fa1=fa1):
                         bs = {x[1] for x in walk(strip_sites(bufe)) if isinstance(x, tuple) and x and x[0] in ('param', 'local')}
+                        # a buffer moved out of an inlined helper's result: follow single-definition moves
+                        work = [x for x in bs if isinstance(x, int)]
+                        while work:
+                            l0 = work.pop()
+                            ds = fa1.defs().get(l0, [])
+                            if len(ds) == 1:
+                                dv = unload(strip_sites(fa1.def_value(l0, ds[0][0], ds[0][1])))
+                                if isinstance(dv, tuple) and dv and dv[0] == 'local' and dv[1] not in bs:
+                                    bs.add(dv[1])
+                                    work.append(dv[1])
                         ls = {x[1] for x in walk(l) if isinstance(x, tuple) and x and x[0] in ('param', 'local')}
                         return bool(bs & ls)
                     st = pf1.at_entry(b)
